@@ -206,6 +206,16 @@ partial def shapeOfJson (j : Json) : PT :=
     | .arr #[.str n, t] => some (n, shapeOfJson t)
     | _ => none))
 
+/-- outside the model's assumptions: a config with `k+` for an own key and for a section key at once (order of `cfg.keys()`), or a
+    section `k+` whose previous value would be read at a SCALAR-typed key of the outer parser (whether that scalar is promoted
+    to a one-element list depends on its adapting to the element type, which the model's opaque atoms do not carry) -/
+def secClash (L : Level) (below : List Level) (e : KV) : Bool :=
+  let secPlus := (leaves (sectionPart (nextName below) e)).filter (fun kv => isPlus kv.1)
+  !secPlus.isEmpty && ((leaves (ownPart (nextName below) e)).any (fun kv => isPlus kv.1) ||
+    secPlus.any (fun kv => match findArgT below (base kv.1) with
+      | some a => (findArg L.p a.dest).any (fun b => b.kind == .scalar)
+      | none => false))
+
 def runTree (j : Json) : Except String Json := do
   let p0 ← parserOfJson (← j.getObjVal? "parser")
   let env ← envOfJson (arrOf j "env")
@@ -232,19 +242,43 @@ def runTree (j : Json) : Except String Json := do
   let tree := runSetters setters (build p0.osDefaultEnv p0.defaultEnv shape)
   let flags := flagsOn path tree
   let flagged := flagLevels lv flags
-  let res := parseTree call tree path lv
+  let tmethod := optStr j "tmethod"
+  let otree ← match j.getObjVal? "tree" with
+    | .ok t => treeOfJson t
+    | .error _ => pure []
+  let res := if tmethod == some "object" then parseObjectT call flagged otree else parseTreeT call tree path lv
   let b := match flagged with
     | L :: _ => envRead L.p call.envArg
     | [] => false
   let callB : Call := { call with envArg := some b }
+  -- a config that holds `k+` both for an own key and for a section key: outside the model's assumption
+  let rec inter : List Level → Bool
+    | [] => false
+    | L :: below =>
+      (L.src.argv.any (fun it => match it with
+        | .cfg _ t =>
+          let e := expandT L below t
+          secClash L below e
+        | _ => false)) || inter below
+  let interO := match flagged with
+    | L :: below =>
+      secClash L below (expandT L below otree)
+    | [] => false
+  let hasSec : List Level → Bool
+    | L :: below => L.src.argv.any (fun it => match it with
+        | .cfg _ t => !(sectionPart (nextName below) (expandT L below t)).isEmpty
+        | _ => false)
+    | [] => false
   let ok := (flagged.zip res).all (fun x => x.1.src.argv.all (itemOk x.1.p) && valid x.1.p x.2)
-  let dom := flagged.all (fun L => wfParser L.p && srcWfC L.p L.src call && L.src.argv.all (itemOk L.p))
+  let dom := tmethod != some "object" && !hasSec flagged &&
+    flagged.all (fun L => wfParser L.p && srcWfC L.p L.src call && L.src.argv.all (itemOk L.p))
   let uni := flagged.all (fun L => envRead L.p call.envArg == b)
   let guard := flagged.all (fun L => !(call.defaults && b) ||
     L.p.args.all (fun a => a.kind == .config || envPlain L.p (environOf L.src call) a.dest))
   pure (Json.mkObj [("levels", .arr (res.map (fun c => vToJson (.ns c))).toArray), ("flags", .arr (flags.map Json.bool).toArray),
                     ("ok", .bool ok), ("ref", .arr (flagged.map (fun L => vToJson (.ns (refFold (asgAllC L.p L.src callB) [])))).toArray),
-                    ("domain", .bool dom), ("uniform", .bool uni), ("guard", .bool guard)])
+                    ("domain", .bool dom), ("uniform", .bool uni), ("guard", .bool guard),
+                    ("interleave", .bool (if tmethod == some "object" then interO else inter flagged))])
 
 partial def loop (h : IO.FS.Stream) (out : IO.FS.Stream) : IO Unit := do
   let line ← h.getLine
